@@ -30,10 +30,16 @@ func (x *Exec) setResult(fr *Frame, pos ssa.Instruction, v *Value) {
 func (x *Exec) call(st *State, fr *Frame, c *ssa.CallCommon, args []*Value, fnv *Value, pos ssa.Instruction, isDefer bool) bool {
 	// builtins
 	if b, ok := c.Value.(*ssa.Builtin); ok {
+		if x.spec > 0 && b.Name() != "len" && b.Name() != "cap" {
+			panic(specAbort{})
+		}
 		x.setResult(fr, pos, x.builtin(st, b, c, args, pos))
 		return false
 	}
 	if c.IsInvoke() {
+		if x.spec > 0 {
+			panic(specAbort{})
+		}
 		recv := fnv
 		x.invoke(st, fr, c, recv, args, pos)
 		return false
@@ -47,6 +53,9 @@ func (x *Exec) call(st *State, fr *Frame, c *ssa.CallCommon, args []*Value, fnv 
 		callee = sc
 	}
 	if callee == nil {
+		if x.spec > 0 {
+			panic(specAbort{})
+		}
 		// dynamic call through a function value: slot contract
 		x.slotCall(st, fr, c, fnv, args, pos)
 		return false
@@ -66,8 +75,14 @@ func (x *Exec) call(st *State, fr *Frame, c *ssa.CallCommon, args []*Value, fnv 
 		}
 	}
 	if fc, ok := x.C.Funcs[name]; ok && !x.forceInline(fc, callee) {
+		if x.spec > 0 && !(fc.HasMod && len(fc.Modifies) == 0 && len(fc.Ghost) == 0) {
+			panic(specAbort{})
+		}
 		x.callByContract(st, fr, callee, fc, name, args, bindings, pos)
 		return false
+	}
+	if x.spec > 0 {
+		panic(specAbort{})
 	}
 	if x.P.InVerifiedPkg(callee) && callee.Blocks != nil {
 		x.inline(st, fr, callee, args, bindings, pos, isDefer)
@@ -722,7 +737,7 @@ func (x *Exec) havocAllHeaps(st *State) {
 		}
 		x.havocHeap(st, n)
 	}
-	st.heaps["!havoc:*"] = "1"
+	st.heaps["!havoc:*"] = x.havocToken(st)
 }
 
 func (x *Exec) invoke(st *State, fr *Frame, c *ssa.CallCommon, recv *Value, args []*Value, pos ssa.Instruction) {
